@@ -5,6 +5,7 @@
 -/
 import SvgVerif.Model.Wire
 import SvgVerif.Model.Transform
+import SvgVerif.Model.Length
 open Svg Svg.Wire
 
 def fmtMat (m : Mat Float) : String :=
@@ -47,8 +48,49 @@ def prepost (op : String) (m : Mat Float) (a : List Float) : Option (Mat Float) 
   | "post_cat" => some (m.postCat (matOf a))
   | _ => none
 
+-- ---------------------------------------------------------------- C12
+def lenOfHex (s : String) : Len Float := Len.ofText numF (stringOfHex s).toList
+
+def fmtLen (l : Len Float) : String := "L " ++ hexOfFloat l.amount ++ " " ++ hexOfString l.units.toString
+
+def optF (s : String) : Option Float := if s = "-" then none else some (floatOfHex s)
+
+def relOf (s : String) : Option (RelLen Float) :=
+  match s.splitOn ":" with
+  | ["num", h] => some (.num (floatOfHex h))
+  | ["obj", h] => some (.lenObj (lenOfHex h))
+  | ["str", h] => some (.lenStr (lenOfHex h))
+  | _ => none
+
+def vbOf (s : String) : Option (Float × Float) :=
+  match s.splitOn ":" with
+  | [w, h] => some (floatOfHex w, floatOfHex h)
+  | _ => none
+
+def fmtVal : LenVal Float → String
+  | .num x => "OK N " ++ hexOfFloat x
+  | .sym l => "OK " ++ fmtLen l
+
+def c12op (op : String) (a b : Len Float) : String :=
+  match op with
+  | "add" => fmtPy fmtLen (Len.add a b)
+  | "sub" => fmtPy fmtLen (Len.sub a b)
+  | "div" => fmtPy (fun x => "N " ++ hexOfFloat x) (Len.div a b)
+  | "lt" => fmtPy (fun (t : Bool) => "B " ++ (if t then "1" else "0")) (Len.lt a b)
+  | "le" => fmtPy (fun (t : Bool) => "B " ++ (if t then "1" else "0")) (Len.le a b)
+  | "gt" => fmtPy (fun (t : Bool) => "B " ++ (if t then "1" else "0")) (Len.lt b a |>.bind fun _ => (do
+              let d ← Len.sub a b
+              pure (decide (0 < d.amount))))
+  | "eq" => "OK B " ++ (if Len.eq 1e-12 a b then "1" else "0")
+  | _ => "bad-op"
+
 def step (line : String) : String :=
   match line.splitOn "\t" with
+  | ["c12.parse", s] => "OK " ++ fmtLen (lenOfHex s)
+  | ["c12.value", s, ppi, rel, fs, fh, vb] =>
+      fmtVal (Len.value (lenOfHex s) { ppi := optF ppi, rel := relOf rel, fontSize := optF fs,
+                                       fontHeight := optF fh, viewbox := vbOf vb })
+  | ["c12.op", op, a, b] => c12op op (lenOfHex a) (lenOfHex b)
   | ["c04.mul", a, b] => "OK " ++ fmtMat (Mat.mul (matOf (fl a)) (matOf (fl b)))
   | ["c04.inv", a] => "OK " ++ fmtMat (Mat.inverse (matOf (fl a)))
   | ["c04.apply", a, p] =>
